@@ -172,8 +172,9 @@ def run_dispatch(job):
         lpos = int(SInt(st['lpos'], 0, 2))
         to = bool(symx.SBool(st['to']))
         fa = [POOL[int(SInt(v, 0, len(POOL) - 1))] for v in st['cells']]
-        other = {'label': ['x', 'y', 'x', 'y', 'x'][:NR], 'fa': fa, 'fb': ['m', 'm', 'n', 'n', 'm'][:NR]}
-        cols = ['fa', 'fb']
+        # the second feature's name is contained in the label's name (names are compared as wholes, never as substrings)
+        other = {'label': ['x', 'y', 'x', 'y', 'x'][:NR], 'fa': fa, 'lab': ['m', 'm', 'n', 'n', 'm'][:NR]}
+        cols = ['fa', 'lab']
         cols.insert(lpos, 'label')
         frame = [[other[c][i] for c in cols] for i in range(NR)]
         w = {'cond': 'dispatch', 'cols': cols, 'frame': frame, 'heur': heur, 'target_only': to}
